@@ -1291,6 +1291,16 @@ func runRefTag(c *core.Ctx) {
 						}
 					}
 				}
+				// a string result of a parsing helper of the module (tag, digest, err := parseRef(arg)): whatever a return
+				// of the helper hands out at that index was checked inside the helper on the way to that return
+				if bt, isB := v.Type().Underlying().(*types.Basic); isB && bt.Info()&types.IsString != 0 && structVal == nil {
+					if hr := an.HelperReturns(v, func(h *ssa.Function) bool { return strings.HasPrefix(core.FuncPkgPath(h), c.P.Module) }); len(hr) > 0 {
+						for _, x := range hr {
+							check(x.Val, x.Ret.Block(), depth+1)
+						}
+						return
+					}
+				}
 				// the assigning block must be guarded by RefTagRE.MatchString(v) == true
 				o := an.Origin(v)
 				guards := an.GuardingEdges(at)
@@ -1558,14 +1568,27 @@ func runReferrerCall(c *core.Ctx) {
 		}
 		// the subject comes from every parsed kind, under the same setting
 		kinds := map[string]map[string]bool{}
-		var visit func(v ssa.Value, at *ssa.BasicBlock, d int)
-		visit = func(v ssa.Value, at *ssa.BasicBlock, d int) {
+		// (the value may be read through a pointer or a copy chosen per kind — manSubject = m.Subject in each arm, the
+		// subject taken from manSubject afterwards: the path below a φ is carried to its operands, and the settings that
+		// guard any step of the flow count)
+		var visit func(v ssa.Value, at *ssa.BasicBlock, d int, suffix []string, acc map[string]bool)
+		visit = func(v ssa.Value, at *ssa.BasicBlock, d int, suffix []string, acc map[string]bool) {
 			if d > 6 {
 				return
 			}
+			g := map[string]bool{}
+			for k := range acc {
+				g[k] = true
+			}
+			if at != nil {
+				t, _ := settingGuards(at)
+				for k := range t {
+					g[k] = true
+				}
+			}
 			if phi, ok := v.(*ssa.Phi); ok {
 				for i, e := range phi.Edges {
-					visit(e, phi.Block().Preds[i], d+1)
+					visit(e, phi.Block().Preds[i], d+1, suffix, g)
 				}
 				return
 			}
@@ -1573,18 +1596,27 @@ func runReferrerCall(c *core.Ctx) {
 				return
 			}
 			root, p := accessPath(v)
-			if al, ok := root.(*ssa.Alloc); ok && ph.parsed[al] != "" && pathEq(p, "Subject", "Digest") {
-				t, _ := settingGuards(at)
-				g := map[string]bool{}
-				for k := range t {
-					g[k] = true
+			full := append(append([]string{}, p...), suffix...)
+			if phi, ok := root.(*ssa.Phi); ok && len(full) > 0 {
+				for i, e := range phi.Edges {
+					visit(e, phi.Block().Preds[i], d+1, full, g)
 				}
+				return
+			}
+			if al, ok := root.(*ssa.Alloc); ok && ph.parsed[al] != "" && pathEq(full, "Subject", "Digest") {
 				// the assigning block itself may be the guarded block's successor: include guards of `at`
+				if prev, seen := kinds[ph.parsed[al]]; seen {
+					for k := range g {
+						if !prev[k] {
+							delete(g, k)
+						}
+					}
+				}
 				kinds[ph.parsed[al]] = g
 			}
 		}
 		if subj != nil {
-			visit(subj, hcall.Block(), 0)
+			visit(subj, hcall.Block(), 0, nil, nil)
 		}
 		// …through the record: the subject stored in each record, seen from the handler's frame
 		for _, t := range recTargets {
@@ -1791,14 +1823,23 @@ func runSiblingRef(c *core.Ctx) {
 		c.Unresolved("types.ManifestReferrerDescriptor", "reference builder not found")
 	} else {
 		// fields assigned on the returned descriptor variable
+		// (in the function itself or in a step of the package it hands the building to)
 		best := []string{}
-		an.Instrs(ref, func(in ssa.Instruction) {
-			if al, ok := in.(*ssa.Alloc); ok && isNamed(an.Deref(al.Type()), r.TypesPath, "Descriptor") {
-				if f := fieldsOf(structStores(al)); len(f) > len(best) {
-					best = f
-				}
+		frames := []*ssa.Function{ref}
+		an.Calls(ref, func(call ssa.CallInstruction) {
+			if h := call.Common().StaticCallee(); h != nil && h != ref && len(h.Blocks) > 0 && core.FuncPkgPath(h) == core.FuncPkgPath(ref) {
+				frames = append(frames, h)
 			}
 		})
+		for _, fr := range frames {
+			an.Instrs(fr, func(in ssa.Instruction) {
+				if al, ok := in.(*ssa.Alloc); ok && isNamed(an.Deref(al.Type()), r.TypesPath, "Descriptor") {
+					if f := fieldsOf(structStores(al)); len(f) > len(best) {
+						best = f
+					}
+				}
+			})
+		}
 		c.Check(strings.Join(best, ",") == strings.Join(want, ","), "builder:types.ManifestReferrerDescriptor", ref.Pos(), "assigns %v, expected %v", best, want)
 	}
 	// the descriptor literals that flow into the referrers update of the push handler
@@ -1821,6 +1862,7 @@ func runSiblingRef(c *core.Ctx) {
 	}
 	var srcs []descSrc
 	seenAlloc := map[ssa.Value]bool{}
+	builtAt := map[[2]ssa.Value]bool{}
 	addLiteral := func(al *ssa.Alloc) {
 		if seenAlloc[al] {
 			return
@@ -1855,6 +1897,35 @@ func runSiblingRef(c *core.Ctx) {
 			for _, t := range tg {
 				if isNamed(an.Deref(t.Alloc.Type()), r.TypesPath, "Descriptor") {
 					addLiteral(t.Alloc)
+				}
+			}
+			// … or handed back by value from a builder that fills it from its parameters: the literal of the builder, with
+			// the arguments of this call in the place of the parameters
+			if _, isPtr := v.Type().Underlying().(*types.Pointer); !isPtr {
+				for _, hr := range an.HelperReturns(v, func(h *ssa.Function) bool { return core.FuncPkgPath(h) == c.P.Module }) {
+					ld, ok := an.Strip(hr.Val).(*ssa.UnOp)
+					if !ok || ld.Op != token.MUL {
+						continue
+					}
+					al, ok := ld.X.(*ssa.Alloc)
+					if !ok || builtAt[[2]ssa.Value{al, hr.Call}] {
+						continue
+					}
+					builtAt[[2]ssa.Value{al, hr.Call}] = true
+					stores := map[string][]ssa.Value{}
+					for k, vs := range structStores(al) {
+						for _, sv := range vs {
+							if p, isP := an.Origin(sv).(*ssa.Parameter); isP {
+								for i, hp := range hr.Callee.Params {
+									if hp == p && i < len(hr.Call.Call.Args) {
+										sv = hr.Call.Call.Args[i]
+									}
+								}
+							}
+							stores[k] = append(stores[k], sv)
+						}
+					}
+					srcs = append(srcs, descSrc{hr.Call.Pos(), stores, hr.Call.Block()})
 				}
 			}
 		case *ssa.FieldAddr:
@@ -2034,6 +2105,54 @@ func init() {
 				c.Unresolved("ManifestReferrerDescriptor:parse", "the parsed manifest or the raw bytes parameter was not found")
 				return
 			}
+			// the frame in which the descriptor is built: the function itself, or — when every successful return hands out the
+			// result of one building step of the package (parsed.referrerEntry(raw, d)) — that step, with its parameters in the
+			// place of the parsed manifest and the raw bytes
+			top := fn
+			success := func(x *ssa.Return) bool { return retErrNil(x) }
+			{
+				var step *ssa.Function
+				var stepCall *ssa.Call
+				same := true
+				an.Instrs(fn, func(in ssa.Instruction) {
+					ret, ok := in.(*ssa.Return)
+					if !ok || !retErrNil(ret) || len(ret.Results) != 3 {
+						return
+					}
+					call, ok := an.Strip(ret.Results[1]).(*ssa.Call)
+					if !ok {
+						same = false
+						return
+					}
+					h := call.Call.StaticCallee()
+					if h == nil || len(h.Blocks) == 0 || core.FuncPkgPath(h) != core.FuncPkgPath(fn) || (step != nil && step != h) {
+						same = false
+						return
+					}
+					step, stepCall = h, call
+				})
+				if same && step != nil {
+					var pParsed, pRaw *ssa.Parameter
+					for i, a := range stepCall.Call.Args {
+						if i >= len(step.Params) {
+							break
+						}
+						if a == parsed {
+							pParsed = step.Params[i]
+						}
+						if ld, ok := an.Strip(a).(*ssa.UnOp); ok && ld.Op == token.MUL && ld.X == parsed {
+							pParsed = step.Params[i]
+						}
+						if an.Origin(a) == ssa.Value(rawParam) {
+							pRaw = step.Params[i]
+						}
+					}
+					if pParsed != nil && pRaw != nil {
+						fn, parsed, rawParam = step, pParsed, pRaw
+						success = func(x *ssa.Return) bool { return true }
+					}
+				}
+			}
 			type st struct{ size, annot bool }
 			badSize, badAnnot := token.NoPos, token.NoPos
 			an.Paths(an.PathSpec[st]{Fn: fn, Init: st{},
@@ -2060,7 +2179,7 @@ func init() {
 							}
 						}
 					case *ssa.Return:
-						if retErrNil(x) {
+						if success(x) {
 							if !s.size && badSize == token.NoPos {
 								badSize = x.Pos()
 							}
@@ -2106,9 +2225,9 @@ func init() {
 					badDigest = x.Pos()
 				}
 			})
-			c.Check(badDigest == token.NoPos, "kept:Digest", fn.Pos(), "%s replaces the digest of the descriptor it was given only when that digest is empty: %v — a manifest pushed under another algorithm is recorded in its subject's referrers list under that digest; recomputing it with the default algorithm makes the delete look for an entry that is not there, and the deleted artifact stays listed", c.P.FuncName(fn), badDigest == token.NoPos)
-			c.Check(badSize == token.NoPos, "derived:Size", fn.Pos(), "every successful return of %s has set Size = len(raw): %v", c.P.FuncName(fn), badSize == token.NoPos)
-			c.Check(badAnnot == token.NoPos, "derived:Annotations", fn.Pos(), "every successful return of %s has set Annotations from the parsed manifest unconditionally: %v — otherwise annotations of the descriptor passed in (a stale fallback entry) survive, the entry validates against itself and the referrers API serves annotations the manifest never declared", c.P.FuncName(fn), badAnnot == token.NoPos)
+			c.Check(badDigest == token.NoPos, "kept:Digest", top.Pos(), "%s replaces the digest of the descriptor it was given only when that digest is empty: %v — a manifest pushed under another algorithm is recorded in its subject's referrers list under that digest; recomputing it with the default algorithm makes the delete look for an entry that is not there, and the deleted artifact stays listed", c.P.FuncName(top), badDigest == token.NoPos)
+			c.Check(badSize == token.NoPos, "derived:Size", top.Pos(), "every successful return of %s has set Size = len(raw): %v", c.P.FuncName(top), badSize == token.NoPos)
+			c.Check(badAnnot == token.NoPos, "derived:Annotations", top.Pos(), "every successful return of %s has set Annotations from the parsed manifest unconditionally: %v — otherwise annotations of the descriptor passed in (a stale fallback entry) survive, the entry validates against itself and the referrers API serves annotations the manifest never declared", c.P.FuncName(top), badAnnot == token.NoPos)
 		}})
 }
 
